@@ -63,6 +63,11 @@ EXTRACT_FN_PROGRAMS = [
     "fun letter(name: String, n: Int): String {\n  if n > 0 {\n      let head = \"Dear \" ^ name ^ \",\n      you have items:\"\n      head ^ \" \" ^ string_repr(n)\n  } else {\n    for i in [1] {\n        println(\"none\n        at all \" ^ string_repr(i))\n    }\n    \"\"\n  }\n}\nprintln(letter(\"bob\", 3))\nprintln(letter(\"amy\", 0))\n",
     # blocks that bind and then go out of scope, one after the other
     "fun w(a: Int, flag: Bool): Int {\n  if flag {\n    let a = a + 100\n    println(string_repr(a))\n  }\n  for z in [a] {\n    let flag = z\n    println(string_repr(flag))\n  }\n  if flag { a } else { 0 - a }\n}\nprintln(string_repr(w(1, True)))\nprintln(string_repr(w(2, False)))\n",
+    # generic functions: a type parameter that occurs only inside the type of a free variable (return type of a
+    # function type, argument of a user-defined type, element of a tuple)
+    "fun count_results<T>(make: Fun<(Int), T>, n: Int): Int {\n  let total = [make(n), make(n + 1)].len()\n  total\n}\nfun show(i: Int): String {\n  string_repr(i)\n}\nprintln(string_repr(count_results(show, 3)))\n",
+    "fun sizes<T, U>(xs: List<T>, pair: (Int, U), use: Fun<(T), Unit>): Int {\n  let n = xs.len() + [pair].len()\n  let m = [use].len()\n  n + m\n}\nprintln(string_repr(sizes([1, 2], (1, \"a\"), fun(i: Int) { Unit })))\n",
+    "fun opt_len<T>(o: Option<T>, r: Result<Int, T>): Int {\n  let a = [o].len()\n  let b = [r].len()\n  a + b\n}\nprintln(string_repr(opt_len(Some(\"x\"), Ok(1))))\n",
 ]
 _CMD = ["reftest-extract-function", "{file}", "{offset}", "{end}", "--name", "extracted_zz"]
 BOUNDED = [
